@@ -215,6 +215,55 @@ func checkExplicitDelta(w *World, r *Report) {
 			}
 		}
 	}
+	// values written for every segment (appended before the branch on the flag) come from
+	// fields of the segment: a value computed there from the mapping itself is written for
+	// explicit segments as well, where the reader of a conforming implementation adds it
+	for _, b := range enc.Blocks {
+		if !(b == fb || b.Dominates(fb) && sameLoop(enc, b, fb)) {
+			continue
+		}
+		for _, in := range b.Instrs {
+			st, ok := in.(*ssa.Store)
+			if !ok {
+				continue
+			}
+			ia, ok := st.Addr.(*ssa.IndexAddr)
+			if !ok {
+				continue
+			}
+			al, ok := ia.X.(*ssa.Alloc)
+			if !ok || al.Comment != "varargs" {
+				continue
+			}
+			v := st.Val
+			for {
+				if cv, ok := v.(*ssa.Convert); ok {
+					v = cv.X
+					continue
+				}
+				if ct, ok := v.(*ssa.ChangeType); ok {
+					v = ct.X
+					continue
+				}
+				break
+			}
+			fromField := false
+			if ld, ok := v.(*ssa.UnOp); ok && ld.Op == token.MUL {
+				if fa, ok := ld.X.(*ssa.FieldAddr); ok && types.Identical(fa.X.Type().Underlying().(*types.Pointer).Elem(), segNamed) {
+					fromField = true
+				}
+			}
+			if _, isC := v.(*ssa.Const); isC {
+				fromField = true
+			}
+			keyv := r.MkKey("explicitdelta", "(cmap.Format4).Encode", "value written for every segment")
+			if fromField {
+				r.OK("explicitdelta", keyv, w.Pos(st.Pos()), "a field of the segment")
+			} else {
+				r.Fail("explicitdelta", keyv, w.Pos(st.Pos()), "a value that is written for every segment, explicit ones included, is computed in Encode itself rather than taken from the segment: for a segment that stores its glyph ids explicitly the idDelta must be 0, because a conforming reader adds it to every glyph id of the array", nil)
+			}
+		}
+	}
 	var deltaFields []int
 	for f := range uncond {
 		if !inBranch[f] {
